@@ -133,6 +133,25 @@ EXTRA = [
     ("cm_adpcm_mono", MPQ + "compression/methods.rs", r"ADPCM_MONO\s*:\s*u8\s*=\s*" + NUM, 0x40),
     ("cm_adpcm_stereo", MPQ + "compression/methods.rs", r"ADPCM_STEREO\s*:\s*u8\s*=\s*" + NUM, 0x80),
     ("cm_lzma", MPQ + "compression/methods.rs", r"LZMA\s*:\s*u8\s*=\s*" + NUM, 0x12),
+    ("fl_implode", MPQ + "tables/block.rs", r"FLAG_IMPLODE\s*:\s*u32\s*=\s*" + NUM, 0x100),
+    ("fl_compress", MPQ + "tables/block.rs", r"FLAG_COMPRESS\s*:\s*u32\s*=\s*" + NUM, 0x200),
+    ("fl_encrypted", MPQ + "tables/block.rs", r"FLAG_ENCRYPTED\s*:\s*u32\s*=\s*" + NUM, 0x10000),
+    ("fl_fix_key", MPQ + "tables/block.rs", r"FLAG_FIX_KEY\s*:\s*u32\s*=\s*" + NUM, 0x20000),
+    ("fl_patch_file", MPQ + "tables/block.rs", r"FLAG_PATCH_FILE\s*:\s*u32\s*=\s*" + NUM, 0x100000),
+    ("fl_single_unit", MPQ + "tables/block.rs", r"FLAG_SINGLE_UNIT\s*:\s*u32\s*=\s*" + NUM, 0x1000000),
+    ("fl_delete_marker", MPQ + "tables/block.rs", r"FLAG_DELETE_MARKER\s*:\s*u32\s*=\s*" + NUM, 0x2000000),
+    ("fl_sector_crc", MPQ + "tables/block.rs", r"FLAG_SECTOR_CRC\s*:\s*u32\s*=\s*" + NUM, 0x4000000),
+    ("fl_exists", MPQ + "tables/block.rs", r"FLAG_EXISTS\s*:\s*u32\s*=\s*" + NUM, 0x80000000),
+    ("he_never_used", MPQ + "tables/hash.rs", r"EMPTY_NEVER_USED\s*:\s*u32\s*=\s*" + NUM, 0xFFFFFFFF),
+    ("he_deleted", MPQ + "tables/hash.rs", r"EMPTY_DELETED\s*:\s*u32\s*=\s*" + NUM, 0xFFFFFFFE),
+    ("mpq_signature", MPQ + "header.rs", r"MPQ_HEADER_SIGNATURE\s*:\s*u32\s*=\s*" + NUM, 0x1A51504D),
+    ("hdr_size_v1", MPQ + "header.rs", r"FormatVersion::V1\s*=>\s*" + NUM, 0x20),
+    ("hdr_size_v2", MPQ + "header.rs", r"FormatVersion::V2\s*=>\s*" + NUM, 0x2C),
+    ("hdr_size_v3", MPQ + "header.rs", r"FormatVersion::V3\s*=>\s*" + NUM, 0x44),
+    ("hdr_size_v4", MPQ + "header.rs", r"FormatVersion::V4\s*=>\s*" + NUM, 0xD0),
+    ("sector_base", MPQ + "lib.rs", r"fn\s+calculate_sector_size[^{]*\{\s*" + NUM + r"\s*<<", 512),
+    ("ht_min_size", MPQ + "builder.rs", r"\(file_count\s*\*\s*2\)\.max\(\s*" + NUM, 16),
+    ("ht_load_factor", MPQ + "builder.rs", r"\(file_count\s*\*\s*" + NUM + r"\)\.max", 2),
     ("ptch_sig", MPQ + "patch/header.rs", r"PTCH_SIGNATURE\s*:\s*u32\s*=\s*" + NUM, 0x48435450),
     ("ptch_md5_sig", MPQ + "patch/header.rs", r"MD5_SIGNATURE\s*:\s*u32\s*=\s*" + NUM, 0x5f35444d),
     ("ptch_xfrm_sig", MPQ + "patch/header.rs", r"XFRM_SIGNATURE\s*:\s*u32\s*=\s*" + NUM, 0x4d524658),
